@@ -169,6 +169,10 @@ def registered_server(mods, case, i, cache={}):
         import sc3.base.main as bm
         iface = bm.main._osc_interface
         iface._send = lambda msg, target: None       # nothing leaves the process
+        done = []
+        # the '/done' responder calls this last, after _handle_login_done (it would only start a routine that waits for
+        # '/synced'); it tells the driver that the reply has been processed completely
+        sw._finalize_register_done = lambda: done.append(1)
         sw._notified = False
         sw._server_registering = True
         sw._send_notify_request(True)
@@ -177,10 +181,10 @@ def registered_server(mods, case, i, cache={}):
             d += struct.pack('>i', rep)
         iface._handle_request(d, (s.addr.hostname, s.addr.port))
         t0 = time.time()
-        while not sw._notified and time.time() - t0 < 5:
+        while not done and time.time() - t0 < 10:
             time.sleep(0.002)
         sw._server_registering = False
-        if not sw._notified:
+        if not done:
             raise RuntimeError('registration reply was not processed')
     return s
 
@@ -327,7 +331,11 @@ def run_ids(mods, eng, case):
 def main():
     inp = json.load(open(sys.argv[1]))
     import sc3
-    sc3.init(os.environ.get('VERIF_MODE', 'nrt'))
+    mode = os.environ.get('VERIF_MODE', 'nrt')
+    if mode == 'rt':        # many driver processes run side by side: stay away from the default port range
+        sc3.LIB_PORT = 20000 + (os.getpid() * 13) % 30000
+        sc3.LIB_PORT_RANGE = 200
+    sc3.init(mode)
     from sc3.synth import _engine as eng
     from sc3.synth import server as srv, bus, buffer as buf
     from sc3.base import netaddr as nad
